@@ -46,11 +46,11 @@ def main(tier: str) -> int:
         "programs": "curated core + VERIF_SEED-sampled effects: <=3 unconditional literals/numeric updates, <=2 when groups "
                     "(<=2 condition literals, <=2 results), <=1 forall-when over t1/t3; half of the sampled programs also "
                     "carry a precondition",
-        "iteration_orders": "natural + reversed (quick); natural + 5 permutations (thorough) of discrete/numeric/"
+        "iteration_orders": "natural + reversed (quick); natural + 3 permutations (thorough) of discrete/numeric/"
                             "conditional/universal effect sets, grounded effect groups and the problem-object table",
-        "argument_tuples_per_program": 3 if tier == "quick" else 5,
+        "argument_tuples_per_program": 3 if tier == "quick" else 4,
         "symbolic_atoms_cap": 8 if tier == "quick" else 11,
-        "max_paths_per_task": 1500 if tier == "quick" else 20000,
+        "max_paths_per_task": 1500 if tier == "quick" else 6000,
         "outside": "float rounding (reals, not doubles); inconsistent effect sets (assumed away, counted vacuous when "
                    "always inconsistent); states beyond the atom cap",
     }
